@@ -5,11 +5,13 @@ import glob, importlib, json, os, sys
 ROOT = os.path.dirname(os.path.dirname(os.path.abspath(__file__)))
 sys.path.insert(0, os.path.join(ROOT, "lib")); sys.path.insert(0, ROOT)
 props = [json.loads(l)["id"] for l in open(os.path.join(ROOT, "properties.jsonl"))]
-na = json.load(open(os.path.join(ROOT, "tools", "not_applicable.json")))
+reasons = json.load(open(os.path.join(ROOT, "tools", "na_reasons.json")))
 checks = []
 engines = {}
 for m in sorted(glob.glob(os.path.join(ROOT, "checks", "c[0-9]*.py"))):
     mod = importlib.import_module("checks." + os.path.basename(m)[:-3])
+    if not getattr(mod, "READY", False):
+        continue
     meta = mod.META
     pid = os.path.basename(m)[1:-3].upper()
     pid = "C" + pid
@@ -26,8 +28,8 @@ for m in sorted(glob.glob(os.path.join(ROOT, "checks", "c[0-9]*.py"))):
     })
     engines.setdefault(meta["engine"], []).append(pid)
 claimed = {c["property_id"] for c in checks}
-for p in props:
-    assert (p in claimed) != (p in {x["property_id"] for x in na}), "property %s must be claimed xor not_applicable" % p
+DEFAULT = "not claimed: no finished check (proof + tie) exists for it in this tree; see DESIGN.md section 5 for the plan and section 8 for the order of work"
+na = [{"property_id": p, "reason": reasons.get(p, DEFAULT)} for p in props if p not in claimed]
 ENG = {
     "coq+corelib": ("harness/corelib", "Coq model + theorems; real wit-bindgen-core pure components driven through a line protocol and compared with the extracted model"),
     "coq+absdump": ("harness/absdump", "Coq model of abi.rs + canonical-ABI spec; recording Bindgen dumps the real instruction streams, compared token-for-token with the model and interpreted against the spec"),
